@@ -513,7 +513,10 @@ class TaskScenario(ScenarioData):
                                 dep_time_idx = self.project.dateToIdx(dep_time)
                                 # Skip gap_slots of working time
                                 working_slots = 0
-                                while working_slots < gap_slots:
+                                # Beyond the horizon nothing is working time: stop there (the
+                                # task is then reported as not fitting) instead of looping for ever
+                                horizon_idx = self.project.dateToIdx(self.project["end"])
+                                while working_slots < gap_slots and dep_time_idx <= horizon_idx:
                                     if self.isWorkingTime(dep_time_idx):
                                         working_slots += 1
                                     dep_time_idx += 1
